@@ -18,7 +18,7 @@ func init() {
 			"Next/ForEach/Append/Insert/Remove, LState.RawSet/RawSetInt/RawGet/RawGetInt/SetTable/GetTable/SetField/GetField/Next/ForEach/ObjLen, CreateTable); " +
 			"every store is followed by a re-read of the touched key through a recorded accessor, every M (3..50) operations and at both ends a full audit " +
 			"(all model keys read back, absent look-alike keys read as nil, Len/ObjLen/# is a border of the model, complete traversal by tb.Next, tb.ForEach, L.Next, L.ForEach, " +
-			"Lua next, pairs, ipairs); traversals with assignments to / clears of existing fields at recorded visit indices; stores under nil/NaN must raise; " +
+			"Lua next, pairs, ipairs); traversals with assignments to / clears of existing fields at recorded visit indices (clears also through table.remove / LTable.Remove when the key is the border, which shortens the array part under the iterator); stores under nil/NaN must raise; " +
 			"about 1/4 of the histories run with lua.MaxArrayIndex lowered to 6..41 so that the array/hash boundary is crossed, a few with the default limit and keys 2^26-1/-2 (1 GB array part), " +
 			"a few start from a constructor with about 511*FieldsPerFlush positional items; " +
 			"non-trivial = >=20 executed operations touching >=2 internal key classes (array-range integer, other number, string, other) with >=1 deletion of a present key; distinct by content hash",
